@@ -5,6 +5,12 @@ BT_TRUST = [
     "rsc.io/binaryregexp agrees with the Lean derivative matcher on the generated regex fragment (cross-checked on every run)",
 ]
 
+GCS_TRUST = [
+    "encoding/json, mime/multipart, compress/gzip, crypto/md5, net/http and the filesystem behave as documented (the correspondence check drives the emulator through them)",
+    "time.Now() is strictly increasing across successive writes and Chtimes/Stat keep nanoseconds (re-measured on every run; a failure is reported as a failed hypothesis)",
+    "net/http's ServeMux redirects request paths containing '//' before the emulator sees them; such object names are outside the generated domain",
+]
+
 PROPS = {
     "C01": {
         "lean": "Emu.Props.C01",
@@ -15,5 +21,42 @@ PROPS = {
         "facts": [],
         "trusted": BT_TRUST,
         "assumptions": ["sequential clients; cell values far smaller than one gRPC message"],
+    },
+    "C02": {
+        "lean": "Emu.Props.C02",
+        "diffs": [
+            {"cmd": "gcs", "scenario": "c02", "quick": 120, "thorough": 3000},
+        ],
+        "facts": [],
+        "trusted": GCS_TRUST,
+        "assumptions": ["object names whose URL path would contain '//' or that embed another API path ('/b/x/o/') are not generated (DESIGN 5, B9)"],
+    },
+    "C04": {
+        "lean": "Emu.Props.C04",
+        "diffs": [
+            {"cmd": "gcs", "scenario": "c04", "quick": 120, "thorough": 3000},
+        ],
+        "facts": [],
+        "trusted": GCS_TRUST,
+        "assumptions": ["'supplied' means non-zero for the three parameters other than ifGenerationMatch (the code cannot tell =0 from unset there)"],
+    },
+    "C10": {
+        "lean": "Emu.Props.C10",
+        "diffs": [
+            {"cmd": "gcs", "scenario": "c10", "quick": 100, "thorough": 2500},
+        ],
+        "facts": [],
+        "trusted": GCS_TRUST,
+        "assumptions": [],
+    },
+    "C15": {
+        "lean": "Emu.Props.C15",
+        "diffs": [
+            {"cmd": "gcs", "scenario": "c15", "quick": 100, "thorough": 2500},
+            {"cmd": "gcs", "scenario": "c15mem", "quick": 60, "thorough": 1500, "engines": "mem"},
+        ],
+        "facts": [],
+        "trusted": GCS_TRUST,
+        "assumptions": [],
     },
 }
